@@ -288,7 +288,12 @@ Proof.
      when b check_limit_handling ;;;
      b <- step_is DS_WAITING_FOR_MISSING_DATA ;;
      when b
-       ((match pkt with Some (PEof _ _ _ _ _) => prepare_eof_ack_packet | _ => ret tt end) ;;;
+       ((match pkt with
+         | Some (PEof _ cond ck sz _) =>
+             if cond =? C_NO_ERROR then prepare_eof_ack_packet
+             else (setp (fun p => p <| p_deferred := false |>) ;;; handle_eof_pdu cond ck sz)
+         | _ => ret tt
+         end) ;;;
         (match pkt with
          | Some (PFileData _ off data) =>
              handle_fd_pdu off data ;;;
@@ -429,6 +434,88 @@ Qed.
 Lemma busy_not_idle : forall s, d_state s = ST_BUSY -> d_state s <> ST_IDLE.
 Proof. intros s H. rewrite H. discriminate. Qed.
 
+(* an EOF (cancel) in a busy handler: the cancelled state, nothing else touched *)
+Lemma eof_cancel_run : forall c ck sz s s', d_state s = ST_BUSY -> c <> C_NO_ERROR ->
+     h_mode (p_conf (d_p s)) = ACKED \/ h_mode (p_conf (d_p s)) = UNACKED ->
+     handle_eof_pdu c ck sz s = (s', Ok tt) ->
+     dest_cancelled s' /\ fs_d s' = fs_d s /\ p_deferred (d_p s') = p_deferred (d_p s) /\
+     h_mode (p_conf (d_p s')) = h_mode (p_conf (d_p s)) /\
+     (h_mode (p_conf (d_p s)) = UNACKED -> d_step s' = DS_TRANSFER_COMPLETION) /\
+     (h_mode (p_conf (d_p s)) = ACKED -> d_step s' = DS_SENDING_EOF_ACK).
+Proof.
+  intros c ck sz s s' Hb Hc Hm H.
+    destruct s as [cfg st step stid rdy q p env].
+    destruct p as [ptid prc pct pcc pcl pck pfin pdisp pconf ppr pcrc pfsz pfn pfse pmdo ptr pmdm pls ple pdef ppt pnc pat pac].
+    destruct pfin as [dl fst0 cd fl]. cbn in Hb, Hm, H |- *. subst st.
+    revert H.
+    unfold handle_eof_pdu, file_transfer_complete_transition, prepare_eof_ack_packet, tid_or_assert, tmode,
+      conf, gp, setp, set_step, emit, add_packet, when, bind, get, gets, modify, ret, raise.
+    apply Z.eqb_neq in Hc. rewrite Hc. cbn.
+    unfold dest_cancelled, dest_cancel_step, fs_d.
+    destruct (l_ind_eof_recv cfg); [destruct ptid as [[ta tb]|]|]; cbn; try (intro H; discriminate H);
+      (destruct prc as [r|]; cbn; [|intro H; discriminate H]);
+      zeqb; cbv iota; (destruct Hm as [Hm|Hm]; rewrite Hm; zeqb; cbv iota; cbn; intro H; injection H as <-; cbn;
+        (split; [split; [reflexivity | split; [reflexivity | tauto]]|]);
+        (split; [reflexivity|]); (split; [reflexivity|]); (split; [first [reflexivity | exact Hm | symmetry; exact Hm]|]);
+         split; intro Hx; try reflexivity; exfalso; revert Hx; unfold ACKED, UNACKED; lia).
+Qed.
+
+Lemma nif_eof_cancel_waiting : forall fuel h c ck sz fl s s',
+  d_state s = ST_BUSY -> d_step s = DS_WAITING_FOR_MISSING_DATA -> c <> C_NO_ERROR ->
+  h_mode (p_conf (d_p s)) = ACKED ->
+  non_idle_fsm fuel (Some (PEof h c ck sz fl)) s = (s', Ok tt) ->
+  dest_cancelled s' /\ fs_d s' = fs_d s /\ d_step s' = DS_SENDING_EOF_ACK /\ p_deferred (d_p s') = false.
+Proof.
+  intros fuel h c ck sz fl s s' Hb Hs Hc Hm H.
+  assert (Hc' := Hc). apply Z.eqb_neq in Hc'.
+  assert (G : forall again,
+    (fsm_advancement ;;;
+     st <- get_step ;;
+     when (((st =? DS_RECEIVING_FILE_DATA) || (st =? DS_RECV_WITH_CHECK_LIMIT)))
+       (handle_eof_pdu c ck sz) ;;;
+     b <- step_is DS_WAITING_FOR_METADATA ;;
+     when b (handle_waiting_for_missing_metadata (Some (PEof h c ck sz fl)) ;;; deferred_lost_segment_handling) ;;;
+     b <- step_is DS_RECV_WITH_CHECK_LIMIT ;;
+     when b check_limit_handling ;;;
+     b <- step_is DS_WAITING_FOR_MISSING_DATA ;;
+     when b
+       ((if c =? C_NO_ERROR then prepare_eof_ack_packet
+         else (setp (fun p => p <| p_deferred := false |>) ;;; handle_eof_pdu c ck sz)) ;;;
+        ret tt ;;;
+        deferred_lost_segment_handling) ;;;
+     b <- step_is DS_TRANSFER_COMPLETION ;;
+     when b handle_transfer_completion ;;;
+     b <- step_is DS_SENDING_FINISHED ;;
+     when b (n <- gets d_ready ;;
+             if 0 <? n then ret tt else (prepare_finished_pdu ;;; handle_finished_pdu_sent)) ;;;
+     b <- step_is DS_WAITING_FOR_FINISHED_ACK ;;
+     when b (handle_waiting_for_finished_ack again (Some (PEof h c ck sz fl)))) s = (s', Ok tt) ->
+    dest_cancelled s' /\ fs_d s' = fs_d s /\ d_step s' = DS_SENDING_EOF_ACK /\ p_deferred (d_p s') = false).
+  2:{ destruct fuel; cbn [non_idle_fsm] in H; exact (G _ H). }
+  clear H. intros again H. revert H.
+  unfold fsm_advancement. rewrite bind_assoc, bind_get.
+  destruct (0 <? zlen (d_queue s)); [unfold bind, raise; intro H; discriminate H|].
+  rewrite Hs. zeqb. cbv iota. rewrite bind_ret.
+  unfold get_step. rewrite bind_gets, Hs. zeqb. cbn [orb]. unfold when at 1. rewrite bind_ret.
+  rewrite step_is_run, Hs. zeqb. unfold when at 1. rewrite bind_ret.
+  rewrite step_is_run, Hs. zeqb. unfold when at 1. rewrite bind_ret.
+  rewrite step_is_run, Hs. zeqb. unfold when at 1. rewrite Hc'.
+  rewrite !bind_assoc, bind_setp.
+  set (s0 := s <| d_p ::= (fun p => p <| p_deferred := false |>) |>).
+  pose proof (eof_cancel_run c ck sz s0) as R.
+  unfold bind at 1.
+  destruct (handle_eof_pdu c ck sz s0) as [s1 [[]|e]]; [|intro H; discriminate H].
+  destruct (R s1 Hb Hc (or_introl Hm) eq_refl) as (R1 & R2 & R3 & R4 & _ & R6).
+  specialize (R6 Hm). change (p_deferred (d_p s0)) with false in R3.
+  rewrite bind_assoc, bind_ret. change (fs_d s0) with (fs_d s) in R2.
+  unfold deferred_lost_segment_handling. rewrite bind_assoc, bind_gp, R3. cbn [negb]. cbv iota. rewrite bind_ret.
+  rewrite step_is_run, R6. zeqb. unfold when at 1. rewrite bind_ret.
+  rewrite step_is_run, R6. zeqb. unfold when at 1. rewrite bind_ret.
+  rewrite step_is_run, R6. zeqb. unfold when.
+  unfold ret. intro H. injection H as <-.
+  split; [exact R1|]. split; [exact R2|]. split; [exact R6 | exact R3].
+Qed.
+
 Lemma dest_cancel_establishes :
   (forall a b s s', d_state s = ST_BUSY -> Dest.cancel_request a b s = (s', Ok true) ->
      dest_cancelled s' /\ d_step s' = DS_TRANSFER_COMPLETION /\ fs_d s' = fs_d s) /\
@@ -448,7 +535,13 @@ Lemma dest_cancel_establishes :
         handle_eof_without_previous_metadata c ck sz s = (s', Ok tt) ->
         dest_cancelled s' /\ fs_d s' = fs_d s /\
         (h_mode (p_conf (d_p s)) = UNACKED -> d_step s' = DS_TRANSFER_COMPLETION) /\
-        (h_mode (p_conf (d_p s)) = ACKED -> d_step s' = DS_SENDING_EOF_ACK))).
+        (h_mode (p_conf (d_p s)) = ACKED -> d_step s' = DS_SENDING_EOF_ACK))) /\
+  (* an EOF (cancel) received while the acknowledged-mode receiver waits for missing data stops the deferred
+     lost-segment procedure and is handled by the same procedure (F33 repair): the whole busy call *)
+  (forall fuel h c ck sz fl s s', d_state s = ST_BUSY -> d_step s = DS_WAITING_FOR_MISSING_DATA -> c <> C_NO_ERROR ->
+     h_mode (p_conf (d_p s)) = ACKED ->
+     non_idle_fsm fuel (Some (PEof h c ck sz fl)) s = (s', Ok tt) ->
+     dest_cancelled s' /\ fs_d s' = fs_d s /\ d_step s' = DS_SENDING_EOF_ACK /\ p_deferred (d_p s') = false).
 Proof.
   assert (E4 : forall c ck sz, c <> C_NO_ERROR ->
      forall s, handle_eof_without_previous_metadata c ck sz s = handle_eof_pdu c ck sz s).
@@ -460,7 +553,7 @@ Proof.
      dest_cancelled s' /\ fs_d s' = fs_d s /\
      (h_mode (p_conf (d_p s)) = UNACKED -> d_step s' = DS_TRANSFER_COMPLETION) /\
      (h_mode (p_conf (d_p s)) = ACKED -> d_step s' = DS_SENDING_EOF_ACK)).
-  { intro P3. split; [|split; [|split; [exact P3|]]].
+  { intro P3. split; [|split; [|split; [exact P3|split; [|exact nif_eof_cancel_waiting]]]].
   - intros a b s s' Hb H.
     destruct (Z_lt_le_dec 0 (d_ready s)) as [Hr|Hr].
     + rewrite (dest_cancel_unretrieved a b s (busy_not_idle s Hb) Hr) in H. discriminate H.
@@ -485,19 +578,8 @@ Proof.
   - intros c ck sz Hc. split; [exact (E4 c ck sz Hc)|].
     intros s s' Hb Hm H. rewrite (E4 c ck sz Hc) in H. exact (P3 c ck sz s s' Hb Hc Hm H). }
   { intros c ck sz s s' Hb Hc Hm H.
-    destruct s as [cfg st step stid rdy q p env].
-    destruct p as [ptid prc pct pcc pcl pck pfin pdisp pconf ppr pcrc pfsz pfn pfse pmdo ptr pmdm pls ple pdef ppt pnc pat pac].
-    destruct pfin as [dl fst0 cd fl]. cbn in Hb, Hm, H |- *. subst st.
-    revert H.
-    unfold handle_eof_pdu, file_transfer_complete_transition, prepare_eof_ack_packet, tid_or_assert, tmode,
-      conf, gp, setp, set_step, emit, add_packet, when, bind, get, gets, modify, ret, raise.
-    apply Z.eqb_neq in Hc. rewrite Hc. cbn.
-    unfold dest_cancelled, dest_cancel_step, fs_d.
-    destruct (l_ind_eof_recv cfg); [destruct ptid as [[ta tb]|]|]; cbn; try (intro H; discriminate H);
-      (destruct prc as [r|]; cbn; [|intro H; discriminate H]);
-      zeqb; cbv iota; (destruct Hm as [Hm|Hm]; rewrite Hm; zeqb; cbv iota; cbn; intro H; injection H as <-; cbn;
-        (split; [split; [reflexivity | split; [reflexivity | tauto]]|]);
-        (split; [reflexivity|]); split; intro Hx; try reflexivity; exfalso; revert Hx; unfold ACKED, UNACKED; lia). }
+    destruct (eof_cancel_run c ck sz s s' Hb Hc Hm H) as (H1 & H2 & _ & _ & H5 & H6).
+    split; [exact H1|]. split; [exact H2|]. split; assumption. }
 Qed.
 
 (* ------------------------------------------------------------------ why the statement reads as it does *)
@@ -596,4 +678,30 @@ Module CounterExamples.
        EvFinished 1 0 C_NO_ERROR DATA_COMPLETE FS_RETAINED None] /\
     d_queue s_d6 = [PFinished (set_dir TOWARDS_SENDER (hin ACKED)) C_CANCEL_REQUEST DATA_COMPLETE FS_RETAINED (Some (2, 2))].
   Proof. repeat split; vm_compute; reflexivity. Qed.
+
+  (* 6. non-vacuity of the last way to cancel (F33 repair): Metadata, then the EOF with no file data: the receiver
+        acknowledges the EOF, sends a NAK and waits for the missing data; the sender's EOF (cancel) arrives: the
+        deferred procedure is stopped, the transaction is cancelled, the EOF (cancel) is acknowledged; the next call
+        is the cancelled completion, which deletes the incomplete file and queues the Finished PDU *)
+  Definition s_w5 : dst := gn (sm None (gn (sm (Some (PEof (hin ACKED) C_NO_ERROR [0; 0; 0; 0] 4 None)) s_md))).
+  Definition s_w6 : dst := sm (Some (PEof (hin ACKED) C_CANCEL_REQUEST [0; 0; 0; 0] 0 None)) s_w5.
+  Definition s_w8 : dst := sm None (gn s_w6).
+  Example eof_cancel_while_waiting_for_missing_data :
+    d_state s_w5 = ST_BUSY /\ d_step s_w5 = DS_WAITING_FOR_MISSING_DATA /\ p_deferred (d_p s_w5) = true /\
+    p_disp (d_p s_w5) = DISP_COMPLETED /\ fs_d s_w5 = [([8], File [])] /\
+    dest_cancelled s_w6 /\ d_step s_w6 = DS_SENDING_EOF_ACK /\ p_deferred (d_p s_w6) = false /\
+    f_cond (p_fin (d_p s_w6)) = C_CANCEL_REQUEST /\ fs_d s_w6 = [([8], File [])] /\
+    d_queue s_w6 = [PAck (set_dir TOWARDS_SENDER (hin ACKED)) D_EOF C_CANCEL_REQUEST 1] /\
+    dest_cancelled s_w8 /\ dest_completion_done s_w8 /\ fs_d s_w8 = [] /\
+    d_queue s_w8 = [PFinished (set_dir TOWARDS_SENDER (hin ACKED)) C_CANCEL_REQUEST DATA_INCOMPLETE
+                      FS_DISCARDED_DELIBERATELY (Some (1, 2))].
+  Proof.
+    split; [vm_compute; reflexivity|]. split; [vm_compute; reflexivity|]. split; [vm_compute; reflexivity|].
+    split; [vm_compute; reflexivity|]. split; [vm_compute; reflexivity|].
+    split; [split; [vm_compute; reflexivity | split; [vm_compute; reflexivity | right; left; vm_compute; reflexivity]]|].
+    split; [vm_compute; reflexivity|]. split; [vm_compute; reflexivity|]. split; [vm_compute; reflexivity|].
+    split; [vm_compute; reflexivity|]. split; [vm_compute; reflexivity|].
+    split; [split; [vm_compute; reflexivity | split; [vm_compute; reflexivity | right; right; right; vm_compute; reflexivity]]|].
+    split; [right; vm_compute; reflexivity|]. split; vm_compute; reflexivity.
+  Qed.
 End CounterExamples.
